@@ -331,6 +331,25 @@ def isClifford (circ : Circ Float) : Bool :=
       (match conjOfTerm g (List.replicate (Gate.nrBits g) .I) with | .error .notAStabilizer => false | _ => true)
     | _ => true
 
+mutual
+/-- a rotation parameter that is NaN or ±inf somewhere in the term -/
+partial def nonFiniteTerm : GateTerm Float → Bool
+  | .RX a | .RY a | .RZ a | .U1 a => !a.isFinite
+  | .U2 a b => !a.isFinite || !b.isFinite
+  | .U3 a b c => !a.isFinite || !b.isFinite || !c.isFinite
+  | .C g => nonFiniteTerm g
+  | .Kron a b => nonFiniteTerm a || nonFiniteTerm b
+  | .Composite _ _ ops | .Loop _ _ _ _ ops => nonFiniteOps ops
+  | _ => false
+partial def nonFiniteOps : OpList Float → Bool
+  | .nil => false
+  | .cons g _ rest => nonFiniteTerm g || nonFiniteOps rest
+end
+
+def nonFiniteOp : COp Float → Bool
+  | .gate g _ | .cond _ _ g _ => nonFiniteTerm g
+  | _ => false
+
 def execTag (what : String) (circ : Circ Float) (shots : Nat) (i : Nat) (reexec : Bool := false) : String :=
   let ds := match circ.ops[i]? with | some op => opDefects circ.nq op | none => []
   -- a panic with 0 shots: anything that touches the (empty) register or the ranges may panic (D9)
@@ -344,6 +363,10 @@ def execTag (what : String) (circ : Circ Float) (shots : Nat) (i : Nat) (reexec 
     -- only a gate on a repeated qubit corrupts the state silently: name it first
     let earlier := ((if reexec then circ.ops else circ.ops.take i)).flatMap (opDefects circ.nq)
     if earlier.contains .dupQubits then s!"{what}:after-dup-qubits" else
+    -- a NaN / infinite rotation parameter makes the whole state vector NaN; `WeightedIndex::new` then refuses the weights
+    -- (known only at measure_all / peek_all: measure, peek and reset return Ok on a NaN state)
+    let atAll := match circ.ops[i]? with | some (.measureAll _ _) | some (.peekAll _ _) => true | _ => false
+    if atAll && ((if reexec then circ.ops else circ.ops.take i)).any nonFiniteOp then s!"{what}:non-finite-parameter" else
     match firstTag earlier Defect.exec with
     | some t => s!"{what}:after-{t}"
     | none => s!"{what}:wellformed-circuit"
